@@ -62,7 +62,7 @@ TOK_PRINT = 0x91
 
 
 def quick_runs(prop):
-    return 1600 if prop == 'C15' else 2400
+    return 1600 if prop == 'C15' else 3200
 
 
 ###############################################################################
